@@ -130,7 +130,15 @@ static void lookalike_cases(const char* dir, uint64_t seed, int count) { char ta
                 static const uint8_t PV[] = {0x02}; static const uint8_t PS[] = {0x2C, 0x48, 0x06, 's', 'c', 'h', 'e', 'm', 'a', 0x15, 0x02, 0x00, 0x15, 0x02, 0x25, 0x00, 0x18, 0x01, 'a', 0x00}; static const uint8_t PN[] = {0x00}; static const uint8_t PG[] = {0x0C};
                 static const struct { int id; int type; const uint8_t* p; int n; } F[4] = {{1, 5, PV, 1}, {2, 9, PS, 20}, {3, 6, PN, 1}, {4, 9, PG, 1}};
                 int mask = (int)vrng_below(&R, 16); if (vrng_chance(&R, 1, 2)) mask = 15; int stop = vrng_chance(&R, 2, 3); int64_t f0 = n; int last = 0;
-                for (int q = 0; q < 4; q++) if (mask & (1 << q)) { b[n++] = (uint8_t)(((F[q].id - last) << 4) | F[q].type); memcpy(b + n, F[q].p, (size_t)F[q].n); n += F[q].n; last = F[q].id; }
+                /* variants of a complete footer that a strict reader refuses: one required field carrying a foreign wire type (its id is there, the field is not),
+                 * or the schema / row_groups lists declared with a foreign element type (list<binary> whose only element spells a root SchemaElement, list<i32>) */
+                int mistype = mask == 15 && vrng_chance(&R, 1, 3) ? 1 + (int)vrng_below(&R, 4) : 0; int elemconf = mask == 15 && !mistype && vrng_chance(&R, 1, 3);
+                static const uint8_t PS_BIN[] = {0x18, 0x48, 0x44, 0x73, 0x63, 0x68, 0x65, 0x6D, 0x61, 0x5F, 0x70, 0x61, 0x64, 0x64, 0x65, 0x64, 0x5F, 0x74, 0x6F, 0x5F, 0x36, 0x38, 0x5F, 0x62, 0x79, 0x74, 0x65, 0x73, 0x5F, 0x78, 0x78, 0x78, 0x78, 0x78, 0x78, 0x78, 0x78, 0x78, 0x78, 0x78, 0x78, 0x78, 0x78, 0x78, 0x78, 0x78, 0x78, 0x78, 0x78, 0x78, 0x78, 0x78, 0x78, 0x78, 0x78, 0x78, 0x78, 0x78, 0x78, 0x78, 0x78, 0x78, 0x78, 0x78, 0x78, 0x78, 0x78, 0x78, 0x78, 0x78, 0x78, 0x15, 0x00, 0x00}; static const uint8_t PG_I32[] = {0x05};
+                for (int q = 0; q < 4; q++) if (mask & (1 << q)) { int ty = F[q].type; const uint8_t* pp = F[q].p; int pn = F[q].n; static const uint8_t ZERO[] = {0x00};
+                    if (mistype == q + 1) { ty = (F[q].type == 5) ? 6 : (F[q].type == 6) ? 5 : 8; pp = ZERO; pn = 1; /* i32<->i64 (one varint byte), a list becomes an empty binary */ }
+                    if (elemconf && q == 1) { pp = PS_BIN; pn = (int)sizeof PS_BIN; } if (elemconf && q == 3 && vrng_chance(&R, 1, 2)) { pp = PG_I32; pn = 1; }
+                    b[n++] = (uint8_t)(((F[q].id - last) << 4) | ty); memcpy(b + n, pp, (size_t)pn); n += pn; last = F[q].id; }
+                if (mistype || elemconf) v_count("footer_fragments_with_foreign_types");
                 if (stop) b[n++] = 0x00; L = (uint32_t)(n - f0); memcpy(b + n, &L, 4); memcpy(b + n + 4, "PAR1", 4); n += 8; v_count("footer_fragments_embedded"); continue; }
             if (kind == 0) L = 0xFFFFFFFFu - (uint32_t)vrng_below(&R, 16); else if (kind == 1) L = (uint32_t)vrng_below(&R, 14); else if (kind == 2) L = (uint32_t)n + (uint32_t)vrng_below(&R, 60); else if (kind == 3) L = (uint32_t)n - (uint32_t)vrng_below(&R, (uint64_t)n + 1);
             else if (kind == 4) { static const uint32_t S[] = {0x7FFFFFFFu, 0x80000000u, 0x80000001u, 0xFFFF0000u, 0x00010000u, 0x7FFFFFF8u}; L = S[vrng_below(&R, 6)]; } else L = (uint32_t)vrng_u64(&R);
